@@ -220,7 +220,7 @@ func NodeRecords(dir string) (map[string][]byte, error) {
 		return nil, err
 	}
 	out := map[string][]byte{}
-	for k, v := range d[cluster.USERCOLSBUCKETKEY] {
+	for k, v := range detRange(d[cluster.USERCOLSBUCKETKEY]) {
 		out[k] = v
 	}
 	return out, nil
@@ -247,7 +247,7 @@ func ShardPointIDs(path string) ([]uuid.UUID, error) {
 		return nil, err
 	}
 	var out []uuid.UUID
-	for k := range d["points"] {
+	for k := range detRange(d["points"]) {
 		if len(k) == 18 && k[0] == 'p' && k[17] == 'i' {
 			var u uuid.UUID
 			copy(u[:], k[1:17])
